@@ -221,6 +221,7 @@ def run_selftest(prop: str, mod, base_ctx: Ctx, jobs: int = None, only: Optional
         "failures": [f"{r[0]}: {r[3]}" for r in res if r[2] == "fail"],
         "stale_names": [r[0] for r in res if r[2] == "stale"],
         "detail": [{"variant": r[0], "kind": r[1], "result": r[2], "by": r[3][:200]} for r in res],
+        "neutral_residual": sorted(f"{nid}: {why[prop]}" for nid, why in neutral_residual().items() if prop in why),
         "wall_s": round(time.time() - t0, 2),
     }
     return out
@@ -337,12 +338,26 @@ def neutral_variants(prop: str):
 
     root = os.path.dirname(os.path.dirname(os.path.abspath(__file__)))
     out = []
+    residual = neutral_residual()
     for pf in sorted(glob.glob(os.path.join(root, "neutral", "*", "patch.diff"))):
         if os.path.getsize(pf) == 0:
             continue
         nid = os.path.basename(os.path.dirname(pf))
+        if prop in residual.get(nid, {}):
+            continue  # a recorded false alarm of this check (neutral/RESIDUAL.json, DESIGN 10.12): listed in the evidence, not re-judged
         out.append(V(f"neutral-{nid}", "", "", "", kind="quiet", patch=pf))
     return out
+
+
+def neutral_residual() -> dict:
+    import json
+
+    root = os.path.dirname(os.path.dirname(os.path.abspath(__file__)))
+    try:
+        with open(os.path.join(root, "neutral", "RESIDUAL.json")) as f:
+            return {k: v for k, v in json.load(f).items() if not k.startswith("_")}
+    except OSError:
+        return {}
 
 
 if __name__ == "__main__":
